@@ -25,7 +25,7 @@ pub fn th_harness(prop: &'static str, h: crate::thworld::ThHarness) -> Harness {
     let h2 = h.clone();
     Harness {
         name: h.name.clone(),
-        bounds: Bounds { depth: 0, dev: h.bound, d_all: 0, merge: false, shard: (0, 1), cap_s: h.cap_s },
+        bounds: Bounds { depth: 0, dev: h.bound, d_all: 0, merge: false, shard: (0, 1), cap_s: h.cap_s, shard_depth: 3 },
         describe: h.describe.clone(),
         run: Box::new(move |b| {
             let mut stats = Stats::default();
@@ -104,7 +104,7 @@ pub fn ops_harness(name: &str, prop: &'static str, cfg: Cfg, bounds: Bounds) -> 
 
 pub fn bounds(depth: usize, dev: usize, d_all: usize) -> Bounds {
     let dev = dev as u32;
-    Bounds { depth, dev, d_all, merge: true, shard: (0, 1), cap_s: 0 }
+    Bounds { depth, dev, d_all, merge: true, shard: (0, 1), cap_s: 0, shard_depth: 3 }
 }
 
 pub fn harnesses(prop: &str, tier: &str) -> Vec<Harness> {
@@ -122,6 +122,7 @@ pub fn harnesses(prop: &str, tier: &str) -> Vec<Harness> {
         "C10" => c10(quick),
         "C11" => c11(quick),
         "C12" => c12(quick),
+        "C14" => c14(quick),
         "C15" => c15(quick),
         "C18" => c18(quick),
         _ => Vec::new(),
@@ -386,7 +387,7 @@ fn c10(quick: bool) -> Vec<Harness> {
         let n = cases.len();
         let cases = std::rc::Rc::new(cases);
         let (c1, c2) = (cases.clone(), cases.clone());
-        let b = Bounds { depth: 12, dev: 0, d_all: 12, merge: false, shard: (0, 1), cap_s: 0 };
+        let b = Bounds { depth: 12, dev: 0, d_all: 12, merge: false, shard: (0, 1), cap_s: 0, shard_depth: 1 };
         v.push(Harness {
             name: name.to_string(),
             describe: json!({"engine": "seqx", "world": "C10World", "cases": n, "answers": "every sequence of accepted/delivered byte counts 0..remaining for each request", "sample_case": format!("{:?}", cases[cases.len() / 2])}),
@@ -404,7 +405,7 @@ fn c12(quick: bool) -> Vec<Harness> {
     let n = sc.len();
     let sc = std::rc::Rc::new(sc);
     let (c1, c2) = (sc.clone(), sc.clone());
-    let b = Bounds { depth: 10, dev: 0, d_all: 10, merge: false, shard: (0, 1), cap_s: 0 };
+    let b = Bounds { depth: 10, dev: 0, d_all: 10, merge: false, shard: (0, 1), cap_s: 0, shard_depth: 1 };
     vec![Harness {
         name: "drop-permutations".to_string(),
         describe: json!({"engine": "seqx", "world": "C12World", "scenarios": n, "drop_orders": "every permutation of the scenario's objects that safe Rust admits", "sample_scenario": format!("{:?}", sc[sc.len() / 3])}),
@@ -420,7 +421,7 @@ fn c18(quick: bool) -> Vec<Harness> {
     let n = cs.len();
     let cs = std::rc::Rc::new(cs);
     let (c1, c2) = (cs.clone(), cs.clone());
-    let b = Bounds { depth: 1, dev: 0, d_all: 1, merge: false, shard: (0, 1), cap_s: 0 };
+    let b = Bounds { depth: 1, dev: 0, d_all: 1, merge: false, shard: (0, 1), cap_s: 0, shard_depth: 1 };
     vec![Harness {
         name: "config-x-kernel-answer".to_string(),
         describe: json!({"engine": "seqx", "world": "C18World", "cases": n, "product": "queue sizes x completion size x clamp x kernel thread(affinity, idle) x single issuer x defer taskrun x disabled x attach x direct descriptors, crossed with kernel answers (ok, other granted sizes, 4 setup errors, 4 missing feature bits, unmappable fd, k-th mmap fails, k-th madvise fails, file table registration fails) and initial counter values", "sample_case": format!("{:?}", cs[cs.len() / 2])}),
@@ -437,7 +438,7 @@ fn c15(quick: bool) -> Vec<Harness> {
     let cs = std::rc::Rc::new(cs);
     let (c1, c2) = (cs.clone(), cs.clone());
     let depth = if quick { 3 } else { 4 };
-    let b = Bounds { depth: depth + 1, dev: 0, d_all: 2, merge: true, shard: (0, 1), cap_s: 0 };
+    let b = Bounds { depth: depth + 1, dev: 0, d_all: 2, merge: true, shard: (0, 1), cap_s: 0, shard_depth: 2 };
     vec![Harness {
         name: "edit-sequences".to_string(),
         describe: json!({"engine": "seqx", "world": "C15World", "cases": n, "edit_sequence_length": depth, "edits": "truncate, clear, remove with every range form and bounds 0..cap+1, usize::MAX-1, usize::MAX, set_len, extend_from_slice 0..cap+1, spare_capacity_mut+set_len, a second kernel read, as_mut_slice writes; then release", "state_merging": "by (case, contents)"}),
@@ -445,6 +446,18 @@ fn c15(quick: bool) -> Vec<Harness> {
         run: Box::new(move |b| seqx::explore(&|| C15World::new(c1.clone()), "C15", b)),
         replay: Box::new(move |choices| seqx::exec(&|| C15World::new(c2.clone()), "C15", choices)),
     }]
+}
+
+fn c14(quick: bool) -> Vec<Harness> {
+    let cases = crate::c14::cases(quick);
+    let n = cases.len();
+    vec![crate::casex::case_harness(
+        "buffer-laws",
+        "C14",
+        cases,
+        crate::c14::run,
+        json!({"engine": "casex (bounded exhaustive enumeration)", "cases": n, "alphabet": "14 read-side buffer types x lengths {0,1,2,3,8,16} x limits {none,0,1,c-1,c,c+1,total,2^32-1,2^32,2^32+1,2^32+5,usize::MAX}; Vec<u8> write-side capacity {0,1,2,3,8,64} x fill x limits x every n; arrays and heterogeneous tuples of arity 1..8 over 5 size patterns incl. zero-size members x limits (also on and inside every member boundary) x every n"}),
+    )]
 }
 
 fn c11(quick: bool) -> Vec<Harness> {
@@ -585,7 +598,7 @@ fn c01(quick: bool) -> Vec<Harness> {
     v
 }
 
-pub const ALL: &[&str] = &["C01", "C02", "C03", "C04", "C05", "C06", "C07", "C08", "C09", "C10", "C11", "C12", "C15", "C18"];
+pub const ALL: &[&str] = &["C01", "C02", "C03", "C04", "C05", "C06", "C07", "C08", "C09", "C10", "C11", "C12", "C14", "C15", "C18"];
 
 pub fn assumptions(prop: &str) -> Vec<String> {
     let mut v = vec![
